@@ -87,7 +87,7 @@ def check_case(case, ctx):
     s = M.smax(J)
     w1 = rec1["weights"]
     wl1 = float(np.abs(w1).sum()) if w1 is not None and w1.shape == (m,) else 1.0
-    scale = max(s * max(wl1, 1.0), float(np.linalg.norm(out1)), 1e-300)
+    scale = max(s * max(wl1, 1.0, E.config_l1(desc)), float(np.linalg.norm(out1)), 1e-300)
     exh = m <= MAXM_EXH[ctx.tier]
     if exh:
         perms = [list(p) for p in itertools.permutations(range(m))][1:]
